@@ -74,6 +74,15 @@ theorem c08_arp_encode_decode (bs rest : Bytes) (p : Arp.ArpPacket)
   subst hop
   exact ⟨by simp [Arp.build, List.append_assoc], l1, l2, l3, l4, l7, l8, l9, l10⟩
 
+/-- the model's operation codes are the discriminants of `enum Operation` in the source
+    (extracted on every check), and an encoded packet has `ArpPacket::SIZE` bytes -/
+theorem c08_arp_codes_and_size :
+    [Arp.Operation.request, Arp.Operation.reply].map Arp.Operation.toNat
+        = Elvis.Gen.CodecB.arpOperationCodes.map (·.2)
+    ∧ ∀ p : Arp.ArpPacket, (Arp.build p).length = Elvis.Gen.CodecB.arpSize := by
+  refine ⟨by decide, fun p => ?_⟩
+  simp [Arp.build, putU8, putU16, putU32, putU48, Elvis.Gen.CodecB.arpSize]
+
 /-! ## DNS -/
 
 /-- representable `DnsMessage`: `u16`/`u32` fields, names without the delimiter, and the record
@@ -95,7 +104,8 @@ def Dns.example1 : Dns.DnsMessage :=
     answer := Dns.newRecord [0x67, 0x6f, 0x6f, 0x67, 0x6c, 0x65, 0x2e, 0x63, 0x6f, 0x6d] 1600 168496141 }
 
 example : Dns.Wf Dns.example1 := by decide
-example : ¬ Dns.Wf { Dns.example1 with question := Dns.newQuestion [0x61, 0x20, 0x62] } := by decide
+example : ¬ Dns.Wf { Dns.example1 with question := Dns.newQuestion [0x61, Dns.delim, 0x62] } := by
+  decide
 
 theorem c08_dns_decode_encode (m : Dns.DnsMessage) (rest : Bytes) (h : Dns.Wf m) :
     Dns.fromBytes (Dns.toMessage m ++ rest) = .ok (m, rest) := by
@@ -168,9 +178,16 @@ example : Dhcp.Wf { Dhcp.default with
     serverName := [0xc3, 0xa9, 0xe2, 0x82, 0xac, 0xf0, 0x9d, 0x84, 0x9e], msgType := .release } := by
   decide
 /-- … an embedded NUL, a surrogate, an overlong form are not -/
-example : ¬ Dhcp.Wf { Dhcp.default with bootFile := [0x41, 0x00, 0x42] } := by decide
+example : ¬ Dhcp.Wf { Dhcp.default with bootFile := [0x41, Dhcp.term, 0x42] } := by decide
 example : ¬ Dhcp.Wf { Dhcp.default with bootFile := [0xed, 0xa0, 0x80] } := by decide
 example : ¬ Dhcp.Wf { Dhcp.default with bootFile := [0xc0, 0x80] } := by decide
+
+/-- the model's message type codes are the discriminants of `enum MessageType` in the source
+    (extracted on every check) -/
+theorem c08_dhcp_type_codes :
+    [Dhcp.MessageType.discover, .offer, .request, .decline, .ack, .nack, .release].map
+        Dhcp.MessageType.toNat = Elvis.Gen.CodecB.dhcpTypeCodes.map (·.2) := by
+  decide
 
 theorem msgTypeTryFrom_toNat (t : Dhcp.MessageType) : Dhcp.msgTypeTryFrom t.toNat = .ok t := by
   cases t <;> rfl
